@@ -274,14 +274,7 @@ impl Check for C11 {
         cov.insert("states_note".into(), json!("states = complete histories executed on the multi-channel object (each also on n single-channel twins or under one mask); transitions = real API calls"));
     }
     fn replay(&self, replay: &Value) -> Result<(bool, String), String> {
-        let cfg = Cfg::from_json(&replay["cfg"])?;
-        let mut acc = Acc::new();
-        c11_one(&mut acc, &cfg, 3, None)?;
-        let mut log = String::new();
-        for f in &acc.found {
-            log.push_str(&format!("    VIOLATES C11 [{}] {} | {}\n", f["sig"].as_str().unwrap_or(""), f["history"].as_str().unwrap_or(""), f["detail"].as_str().unwrap_or("")));
-        }
-        Ok((!acc.found.is_empty(), log))
+        crate::frame::replay_by_item(self, replay)
     }
     fn rule(&self, _tier: Tier) -> String {
         "all sequences of exactly the stated depth over {P, R(max,ramp), R(1/max), C(max/2), Z, PP(1)} (prefixes are checked step by step), distinct pseudo-random signal per channel: (a) channel c of the n-channel run is bit-identical to a single-channel twin fed channel c; (b) for every constant mask (all 2^n for n<=3; all/none/single/all-but-one/alternating for n=8), inactive channels passed as empty slices and as sentinel-filled slices: same results and counts, active outputs bit-identical to the unmasked run, inactive outputs untouched".into()
@@ -595,16 +588,7 @@ impl Check for C16 {
         cov.insert("states_note".into(), json!("states = twin comparisons executed (one per reached state x wrapper x mask/partial length); transitions = real API calls made for them"));
     }
     fn replay(&self, replay: &Value) -> Result<(bool, String), String> {
-        let cfg = Cfg::from_json(&replay["cfg"])?;
-        let h = history_parse(replay["history"].as_str().unwrap_or(""))?;
-        let mut acc = Acc::new();
-        c16_state::<f64>(&mut acc, &cfg, &h)?;
-        c16_boxed::<f64>(&mut acc, &cfg, 3)?;
-        let mut log = String::new();
-        for f in &acc.found {
-            log.push_str(&format!("    VIOLATES C16 [{}] {} | {}\n", f["sig"].as_str().unwrap_or(""), f["history"].as_str().unwrap_or(""), f["detail"].as_str().unwrap_or("")));
-        }
-        Ok((!acc.found.is_empty(), log))
+        crate::frame::replay_by_item(self, replay)
     }
     fn rule(&self, _tier: Tier) -> String {
         "for every history up to the depth (2 channels): twins materialised by replay; process() vs process_into_buffer under all 4 masks and no mask; process_partial_into_buffer(Some(x)) for every length 1..next-1 (next<=64), next, next+3 and None against process_into_buffer on the zero-padded/truncated chunk, with and without a mask, including the state left behind; process_partial vs process_partial_into_buffer; three flush calls vs three zero chunks; every VecResampler method through Box<dyn VecResampler> vs the direct call along all histories over {P, PP, W, accepted and rejected ratio changes}".into()
